@@ -419,18 +419,26 @@ def known_defect_shapes(forms):
             # its body holds a throw, an error, a loop or an exit (probes try-conditional-throw, verbose-try)
             skip.add("verbose")
             skip.add("quiet")
-        if src.startswith("if ") and IF_ELSE.match(src):
-            skip.add("verbose")                   # if/else used as a value: branches of different types
+        if not DEF_RE.match(src) and "} else {" in src:
+            skip.add("verbose")                   # if/else used as a value (also inside a loop body): branches of different types
     return skip
 
 
 def class_key(cls, steps, out):
     """Confirmed loop defects with many instances get one key each."""
+    if "Have determined 0 possible types for the expression" in out and "verbose is on." in out and \
+            cls in ("accepted-form-rejected-by-loop", "good-form-rejected-after-erroneous-form"):
+        return "C13 gloop:verbose-mode:toplevel-if-else-with-branches-of-different-types-rejected"
     if any(s.startswith("try {") for s, _, b in steps if not b) and cls in ("loop-crashed", "session-differs-from-batch"):
         return PROBES[2]["key"]
-    if cls == "loop-crashed" and "No meaning for identifier" in out and any(re.search(r"\bif \(if ", s) for s, _, b in steps if b):
+    if cls == "loop-crashed" and "(Error)" in out and \
+            any(re.search(r"\bif\b.*\(if\b", s, re.S) for s, _, b in steps if b):
+        # any type error (undefined name, wrong argument, wrong arity) in the condition of an if-expression that is
+        # itself (part of) an if-condition: the message is printed, then the reporter segfaults
         return "C13 gloop:undefined-name-in-nested-if-condition:segfault-while-reporting"
-    if cls == "loop-crashed" and sum(1 for s, _, b in steps if b and re.match(r"f\d+\(", s)) >= 3:
+    if cls == "loop-crashed" and any(re.match(r"f\d+\(", s) for s, _, b in steps if b):
+        # one or more rejected FUNCTION definitions: sporadic segfault later in the session (heap-layout dependent:
+        # the same session may pass with a compiler built from slightly different sources)
         return "C13 gloop:many-rejected-function-definitions:later-segfault"
     return None
 
@@ -462,7 +470,7 @@ def run(rep, tier):
 
     for pr in PROBES:
         st["probes"] += 1
-        cls, out = _judge_steps(aldor, base, pr["what"], pr["mode"], pr["steps"], timeout=25)
+        cls, out = _judge_steps(aldor, base, pr["what"], pr["mode"], pr["steps"], timeout=20, retry=False)
         if cls:
             viol.append(("probe %s: %s" % (pr["name"], cls),
                          {"how_to_replay": "./check C13 --replay <this file>", "what": pr["what"], "mode": pr["mode"],
@@ -470,7 +478,7 @@ def run(rep, tier):
                           "session_input": session_text(pr["mode"], [x[0] for x in pr["steps"]]),
                           "observed_transcript": out[-3000:]}, pr["key"]))
 
-    n_prog = 60 if quick else 100000
+    n_prog = 128 if quick else 100000
     budget = 120 if quick else 17 * 60
     sizes = SIZES_QUICK if quick else SIZES_THOROUGH
     t_start = time.time()
@@ -480,7 +488,8 @@ def run(rep, tier):
     kinds_used = collections.Counter()
     positions_covered = 0
     failures = []
-    while done < n_prog and time.time() - t_start < budget and len(failures) < 12:
+    while done < n_prog and time.time() - t_start < budget and \
+            sum(1 for fl in failures if class_key(fl[0], fl[4], fl[6]) is None) < 12:
         jobs = [(rng.randrange(1, 2 ** 40), rng.choice(sizes)) for _ in range(16 if quick else 32)]
         fs = mini.batch(["forms %d %d" % j for j in jobs])
         ms = mini.batch(["mutants %d %d %d" % (s, z, 3 if quick else 6) for s, z in jobs])
@@ -604,7 +613,8 @@ def run(rep, tier):
     shrunk = 0
     for cls, what, md, prog, steps, ins, out in failures:
         f = prog["f"]
-        if shrunk < 3 and cls != "timeout":
+        ck = class_key(cls, steps, out)
+        if shrunk < 3 and cls != "timeout" and not (ck and rep.finding_key_known(ck)):
             shrunk += 1
             steps = shrink_session(aldor, base, cls, what, md, prog, steps, budget_s=40 if quick else 240)
             rc, o2, e2 = run_loop(aldor, session_text(md, [s for s, _, _ in steps]), base)
